@@ -7,6 +7,7 @@ from /repo's working tree on every run.
 import ast
 import os
 import string
+import warnings
 
 REPO = os.environ.get('ALGOPY_REPO', '/repo')
 
@@ -142,8 +143,9 @@ def _decorator_kind(node):
 
 
 class Model:
-    def __init__(self, repo=None):
+    def __init__(self, repo=None, overrides=None):
         self.repo = repo or REPO
+        self.overrides = overrides or {}
         self.modules = {}
         self.files_parsed = []
         self.generated = []     # FuncInfo of template-generated dispatchers
@@ -153,11 +155,16 @@ class Model:
     def _load(self):
         for rel, modname in SCOPE:
             path = os.path.join(self.repo, rel)
-            if not os.path.exists(path):
-                raise AnalysisError('E0.scope', rel, 'in-scope module vanished')
-            src = open(path, encoding='utf-8').read()
+            if rel in self.overrides:
+                src = self.overrides[rel]
+            else:
+                if not os.path.exists(path):
+                    raise AnalysisError('E0.scope', rel, 'in-scope module vanished')
+                src = open(path, encoding='utf-8').read()
             try:
-                tree = ast.parse(src, filename=path)
+                with warnings.catch_warnings():
+                    warnings.simplefilter('ignore')
+                    tree = ast.parse(src, filename=path)
             except SyntaxError as e:
                 raise AnalysisError('E0.parse', rel, 'syntax error: %s' % e)
             mi = ModuleInfo(modname, rel, tree, src)
@@ -233,13 +240,13 @@ class Model:
         self._scan_body(mi, mi.tree.body)
 
     def _scan_nested(self, fi):
+        """register nested function definitions (recursively) with their parent"""
         fi.nested = {}
-        for st in ast.walk(fi.node):
-            if isinstance(st, ast.FunctionDef) and st is not fi.node:
-                # only direct nesting level matters here (the repo nests one level)
+        for st in walk_no_nested(fi.node):
+            if isinstance(st, ast.FunctionDef):
                 nf = FuncInfo(fi.module, fi.cls, st, 'function', fi.file, parent=fi)
-                nf.nested = {}
                 fi.nested[st.name] = nf
+                self._scan_nested(nf)
 
     def _expand_templates(self, mi):
         """function_template.substitute(function_name=<n>, namespace=<ns>) under
@@ -349,18 +356,20 @@ class Model:
         raise AnalysisError('E0.anchor', module + ':' + qual, 'function vanished')
 
     def all_functions(self, include_nested=True):
+        def rec(fi):
+            yield fi
+            if include_nested:
+                for nf in getattr(fi, 'nested', {}).values():
+                    for x in rec(nf):
+                        yield x
         for mi in self.modules.values():
             for fi in mi.functions.values():
-                yield fi
-                if include_nested:
-                    for nf in getattr(fi, 'nested', {}).values():
-                        yield nf
+                for x in rec(fi):
+                    yield x
             for ci in mi.classes.values():
                 for fi in ci.all_defs:
-                    yield fi
-                    if include_nested:
-                        for nf in getattr(fi, 'nested', {}).values():
-                            yield nf
+                    for x in rec(fi):
+                        yield x
 
     # -------------------------------------------------- namespace resolution
     def _own_namespace(self, mi):
